@@ -65,6 +65,11 @@ def genRaw (item : Char) (i : Nat) (ctx : Option ErrCtx) : Out String :=
     match ctx with
     | none => .ok "echo "
     | some c => .ok ("echo " ++ String.join ((ctxNonces c).map fun n => s!"<{n}>"))
+  | 'H' =>   -- the library's create_mock_healing_generator: heals once the error shown contains "<101>"
+    let heals := match ctx with
+      | none => false
+      | some c => (ctxNonces c).contains 101
+    if heals then .ok (s!"\{\"x\": {i}, \"note\": \"<{i}>\"}") else .ok s!"garbage <{i}>"
   | 'b' => .ok ""
   | 's' => .ok "   "
   | 'n' => .ok "\n"
@@ -170,6 +175,8 @@ structure SwSt where
   ms : List Char := []
   cfg : SwarmCfg := ⟨3, 10⟩
   thr : Float := 0.9
+  /-- `worker.memory.output_history` per worker object (the factory may hand out the same object again) -/
+  mem : List (Nat × List String) := []
 
 def stepOut (item : Char) (g : Nat) : Out String :=
   match item with
@@ -193,6 +200,18 @@ def stepOut (item : Char) (g : Nat) : Out String :=
     its bound - or whose bound the callbacks keep raising - must not hang the check -/
 def cap : Nat := 64
 
+def memOf (s : SwSt) (w : Nat) : List String := ((s.mem.find? fun e => e.1 == w).map (·.2)).getD []
+
+def memAdd (s : SwSt) (w : Nat) (o : String) : SwSt :=
+  { s with mem := (w, memOf s w ++ [o]) :: s.mem.filter fun e => e.1 != w }
+
+/-- `create_default_summarizer()` on the worker's memory: "attempted n steps" (code 1000000 + n) when it made any,
+    "stuck repeating the same output" (code 2000000) when its last (up to three) outputs are all equal -/
+def defaultHints (outs : List String) : List Nat :=
+  if outs.isEmpty then [] else
+    [1000000 + outs.length] ++
+      (if ((outs.drop (outs.length - 3)).eraseDups.length == 1) then [2000000] else [])
+
 def setRegen (s : SwSt) (f : Int → Int) : SwSt := { s with cfg := ⟨f s.cfg.maxRegen, s.cfg.maxSteps⟩ }
 def setSteps (s : SwSt) (f : Int → Int) : SwSt := { s with cfg := ⟨s.cfg.maxRegen, f s.cfg.maxSteps⟩ }
 
@@ -210,13 +229,16 @@ def swarmAdvD : SwarmAdv SwSt Nat String (List Nat) Nat String where
     | 'l' => (setRegen { s with spawn := s.spawn + 1, step := 0, last := name } (fun _ => 0), .ok name)
     | 'g' => (setRegen { s with spawn := s.spawn + 1, step := 0, last := name } (· + 1), .ok name)
     | _ => ({ s with spawn := s.spawn + 1, step := 0, last := name }, .ok name)
-  step s _ _ :=
+  step s w _ :=
     if s.step ≥ cap then ({ s with step := s.step + 1 }, .raise) else
     let script := match s.ss with
       | [] => []
       | _ => s.ss.getD (min (s.spawn - 1) (s.ss.length - 1)) []
     let item := pick script s.step 'u'
     let s' := { s with step := s.step + 1, g := s.g + 1 }
+    let s' := match stepOut item s.g with
+      | .ok o => memAdd s' w o
+      | .raise => s'
     let s'' := match item with
       | 'y' => setSteps s' (fun _ => 0)
       | 'Y' => setSteps s' (· + 1)
@@ -224,10 +246,11 @@ def swarmAdvD : SwarmAdv SwSt Nat String (List Nat) Nat String where
       | 'Z' => { s' with thr := 2.0 }
       | _ => s'
     (s'', stepOut item s.g)
-  summarize s _ :=
+  summarize s w :=
     match pick s.ms s.summ 'h' with
     | 'x' => ({ s with summ := s.summ + 1 }, .raise)
     | 'e' => ({ s with summ := s.summ + 1 }, .ok [])
+    | 'D' => ({ s with summ := s.summ + 1 }, .ok (defaultHints (memOf s w)))
     | 'l' => (setRegen { s with summ := s.summ + 1 } (fun _ => 0), .ok [s.summ + 10])
     | 'g' => (setRegen { s with summ := s.summ + 1 } (· + 1), .ok [s.summ + 10])
     | _ => ({ s with summ := s.summ + 1 }, .ok [s.summ + 10])
@@ -235,7 +258,7 @@ def swarmAdvD : SwarmAdv SwSt Nat String (List Nat) Nat String where
 
 /-- new scripts for the callbacks of one `supervise` line -/
 def swScripts (fs : List Char) (ss : List (List Char)) (ms : List Char) (s : SwSt) : SwSt :=
-  { s with spawn := 0, step := 0, g := 0, summ := 0, last := 0, fs := fs, ss := ss, ms := ms }
+  { s with spawn := 0, step := 0, g := 0, summ := 0, last := 0, fs := fs, ss := ss, ms := ms, mem := [] }
 
 def swarmCode (thr : Float) : SwarmCode String where
   marker := strMarker
@@ -256,7 +279,9 @@ def swarmObjD : SwarmObj SwSt Nat String (List Nat) Nat String where
   hints0 := []
   fuel := 3 * cap      -- the scripted factory raises after `cap` calls, so the model never runs out
 
-def showHints (h : List Nat) : String := if h.isEmpty then "-" else ".".intercalate (h.map fun n => s!"h{n}")
+def showHints (h : List Nat) : String :=
+  if h.isEmpty then "-" else ".".intercalate (h.map fun n =>
+    if n ≥ 2000000 then "k" else if n ≥ 1000000 then s!"a{n - 1000000}" else s!"h{n}")
 
 def showSpawn (sp : Spawn Nat String (List Nat)) : String :=
   let w := match sp.worker with | .ok w => s!"w{w}" | .raise => "x"
